@@ -1472,7 +1472,10 @@ RCP<const Boolean> Complement::contains(const RCP<const Basic> &a) const
 
 RCP<const Set> Complement::set_union(const RCP<const Set> &o) const
 {
-    // A' U C = (A n C')'
+    // A' U C = (A n C')' holds only for C inside the universe
+    if (not o->is_subset(universe_)) {
+        return SymEngine::make_set_union({rcp_from_this_cast<const Set>(), o});
+    }
     RCP<const Set> ocomplement = o->set_complement(universe_);
     RCP<const Set> intersect
         = SymEngine::set_intersection({container_, ocomplement});
